@@ -199,23 +199,15 @@ def check_one(chk, rng, i):
             for secret in ("wonder",):
                 if secret in val:
                     chk.violation("password-in-rendering", dict(replay, url=us), f"{key} of {us} contains the password: {val}")
-        # spec monitor: the matched entry satisfies the constraints and no earlier one does
-        if auth:
-            ok = False
-            for m, a in n._machines.items():
-                # reconstruct a machine string equivalent for the independent spec
-                ms = (m.protocol + "://" if m.protocol else "") + (m.hostname or "") + (f":{m.port}" if m.port is not None else "") + (m.path or "")
-                if spec_matches(ms, us):
-                    ok = (a == auth)
-                    break
-            if not ok:
-                chk.violation("match-violates-spec", dict(replay, url=us), f"{us}: credentials {auth} attached but the first entry satisfying the constraints differs")
-        else:
-            for m, a in n._machines.items():
-                ms = (m.protocol + "://" if m.protocol else "") + (m.hostname or "") + (f":{m.port}" if m.port is not None else "") + (m.path or "")
-                if spec_matches(ms, us):
-                    chk.violation("match-violates-spec", dict(replay, url=us), f"{us}: entry {ms} satisfies the constraints but nothing was attached")
-                    break
+        # spec monitor, independent of how the tool parses a machine string: the entries as the reference parser read them from
+        # the files (machine strings as written), in file order; the first one whose constraints the URL satisfies decides
+        # (which of several matching entries wins is not part of the statement: any of them is accepted)
+        matching = [tuple(a) for ms, a in ref.items() if spec_matches(ms, us)]
+        if auth and tuple(auth) not in matching:
+            chk.violation("match-violates-spec", dict(replay, url=us), f"{us}: credentials {auth} attached, but no entry as written with these credentials "
+                          f"matches its host, scheme, port and path prefix (matching entries: {matching[:3]})")
+        elif not auth and matching:
+            chk.violation("match-violates-spec", dict(replay, url=us), f"{us}: an entry satisfies the constraints ({matching[0][0]}) but nothing was attached")
         chk.count("urls_checked")
         if auth:
             chk.count("urls_with_credentials_attached")
